@@ -25,7 +25,7 @@ type c08Case struct {
 
 func sepRefused(s gen.SepSpec) (refused, borderline bool) {
 	if s.Kind == "func" {
-		return s.Recipe.Feasibility(200, 1e-9)
+		return s.Recipe.Feasibility(spg.MaxTrials, spg.MaxFailRate)
 	}
 	return false, false
 }
